@@ -33,6 +33,9 @@ func init() {
 		if os.Getenv("DBGSTALE") != "" {
 			debugStale(p)
 		}
+		if os.Getenv("DBGINITORDER") != "" {
+			checkInitOrder(c, p, "DEBUG.initorder", nil)
+		}
 		if os.Getenv("DBGASMCOND") != "" {
 			surveyAsmConds(p)
 		}
